@@ -1,10 +1,10 @@
 (** DiskKVModel: the node-directory protocol of tests/diskkv.go (DiskKVTest) as sequences of
     file-system steps ([CrashFS]) and abstract store steps.
 
-    The model describes the CORRECT protocol of the first Open: the store directory is created and
-    made durable (MkdirAll + sync of the node directory) BEFORE the pointer file that names it is
-    published.  (The code base up to and including the finding "C16-first-open" published the pointer
-    first; see corpus/C16/.)
+    The model describes the protocol of the repaired code (/repo commit ade95d9, finding
+    "C16-first-open-window"): on the first Open the store directory is created and made durable
+    (MkdirAll = mkdir + sync of the node directory) BEFORE the pointer file that names it is published.
+    (Before that commit the pointer was published first.)
 
     Every API call is a [plan]: the list of mutating steps it performs, computed from the state the
     call starts in (the code is single threaded and reads only what it or an earlier call wrote), and
@@ -246,6 +246,37 @@ Inductive spec_reach : list event -> sstate -> Prop :=
 | sr_nil : spec_reach [] (kv_init, false)
 | sr_snoc : forall evs e x x', spec_reach evs x -> spec_step e x x' -> spec_reach (evs ++ [e]) x'.
 
+(** The same specification with the history made explicit: [h_snap] is the last installed snapshot
+    (index, contents; the empty store at index 0 before the first one), [h_ups] the update batches that
+    took effect since then, in order.  The state of the machine is "the updates on top of the snapshot";
+    its index is the snapshot index plus the number of entries of those updates. *)
+Definition batch := list (N * N).
+Record hist := mkHist { h_snap : kvstate; h_ups : list batch; h_up : bool }.
+Definition log_state (snap : kvstate) (ups : list batch) : kvstate :=
+  fold_left (fun L b => (fst L + nlen b, apply_batch b (snd L))) ups snap.
+Definition hist_state (h : hist) : kvstate := log_state (h_snap h) (h_ups h).
+Definition hist0 : hist := mkHist kv_init [] false.
+
+Definition hist_op (o : op) (h : hist) : hist :=
+  match o, h_up h with
+  | OOpen, false => mkHist (h_snap h) (h_ups h) true
+  | OUpdate b, true => mkHist (h_snap h) (h_ups h ++ [b]) true
+  | ORecover dlt c, true => mkHist (fst (hist_state h) + dlt, c) [] true
+  | OClose, true => mkHist (h_snap h) (h_ups h) false
+  | _, _ => h                      (* Sync; calls outside the API contract *)
+  end.
+Definition hist_down (h : hist) : hist := mkHist (h_snap h) (h_ups h) false.
+
+(** a call that returned has happened; a call interrupted by a crash has happened entirely or not at all *)
+Inductive hist_step : event -> hist -> hist -> Prop :=
+| hs_op : forall o h, hist_step (EvOp o) h (hist_op o h)
+| hs_crash_not : forall o k h, hist_step (EvCrash o k) h (hist_down h)
+| hs_crash_done : forall o k h, hist_step (EvCrash o k) h (hist_down (hist_op o h)).
+
+Inductive hist_reach : list event -> hist -> Prop :=
+| hr_nil : hist_reach [] hist0
+| hr_snoc : forall evs e h h', hist_reach evs h -> hist_step e h h' -> hist_reach (evs ++ [e]) h'.
+
 (** durable-view invariant of DESIGN.md H.3 (1): the durable pointer, if any, is well formed and names a
     durable store directory *)
 Definition dur_wf (s : fs) : Prop :=
@@ -253,11 +284,16 @@ Definition dur_wf (s : fs) : Prop :=
   forall i, v_cur (f_dur s) = Some i ->
   exists d, i_synced (f_ino s i) = ptr_bytes d /\ In d (v_dbs (f_dur s)).
 
-(** index acknowledged to the caller by the most recent returned call, if the machine is open *)
+(** index acknowledged to the caller by the most recent returned call, if the machine is open
+    (Open returns it; Update: index of the last entry of the batch; RecoverFromSnapshot: snapshot index) *)
 Definition acked_index (y : sys) : option N :=
   match p_db (s_proc y) with
   | None => None
   | Some _ => Some (p_last (s_proc y))
   end.
+
+(** the FS operations performed by the first k steps of call [o] started in state [y] *)
+Definition steps_of (o : op) (y : sys) : list step := fst (plan o (s_fs y) (s_proc y) (s_fresh y)).
+Definition mid_state (o : op) (k : nat) (y : sys) : fs := exec (firstn k (steps_of o y)) (s_fs y).
 
 End Model.
